@@ -75,6 +75,7 @@ def prop_C11(run):
     import rules_tab, rules_unit, rules_det
     rules_tab.tab_fmt(run)
     rules_tab.fmt_profile(run)
+    rules_tab.bit_source(run)
     # bit positions, output byte counts and addresses in address units never meet in one value
     nc, ns = rules_unit.unit(run, scope_files=list(rules_unit.LAYOUT_FILES), layout=True)
     run.floor("UNIT5", "layout-unit seeds in the formatters", run.counters.get("unit_layout_seeds", 0), 20)
@@ -117,6 +118,7 @@ def prop_C03(run):
     import rules_asm, rules_mpt
     rules_asm.args_rules(run)
     rules_mpt.write_rules(run)
+    rules_mpt.no_failure_after_write(run)
     np_ = rules_err.pair(run, reach)
     run.floor("PAIR", "functions pushing parents", np_, 12)
     run.rules_run += ["ERR1 Err => message pushed (interprocedural path-state search)", "ERR3 Unresolved/None in a last pass => message pushed",
@@ -134,6 +136,7 @@ def prop_C02(run):
     import rules_idx
     rules_idx.static_known(run)
     rules_idx.sk_provider(run)
+    rules_idx.sk_match_locals(run)
     run.rules_run += ["FIX5 every candidate re-evaluated in every pass", "SK static-known analysis conservative (a frozen item must really be constant)", "FIX1 confirming no-guess pass dominates every delivered result", "FIX2 each stateful resolver compares with the previous pass and returns Unresolved on change",
                       "FIX3 resolved=true only under the static-known conjunction", "ERR3 unstable value in a last pass is an error"]
 
@@ -141,11 +144,12 @@ def prop_C02(run):
 def prop_C09(run):
     import rules_fix, rules_tab
     rules_fix.fix1(run)
+    rules_fix.fix2(run)
     rules_fix.fix4(run)
     pc = run.anchor("FIX4", "driver::parse_command")
     if pc:
         rules_tab.tab_cli_iters(run, pc, rules_tab.parse_usage(run.repo))
-    run.rules_run += ["FIX1", "FIX4 counter bounded by the budget, flags derived from the counter, max_iterations read nowhere else, asserts only in a last pass, --iters 0 rejected"]
+    run.rules_run += ["FIX1", "FIX2 stability comparisons over the whole kept value", "FIX4 counter bounded by the budget, flags derived from the counter, max_iterations read nowhere else, asserts only in a last pass, --iters 0 rejected"]
 
 
 def prop_C08(run):
@@ -157,6 +161,7 @@ def prop_C08(run):
     rules_idx.candidates_all_matched(run)
     rules_idx.static_known(run)
     rules_idx.sk_provider(run)
+    rules_idx.sk_match_locals(run)
     run.rules_run += ["GATE who-touches audit of the two optimisation switches", "FIX3", "TAB-idx writer/reader/matcher agreement of the rule-prefix index", "SK conservativeness of is_value_statically_known per Expr variant"]
 
 
@@ -178,6 +183,8 @@ def prop_C13(run):
     rules_unit.unit3(run)
     rules_unit.span_shape(run)
     rules_unit.src_bind(run)
+    rules_unit.line_column_counts(run)
+    rules_unit.walker_text(run)
     import rules_sym
     rules_sym.declare_rules(run)
     reach = reach_roots(run)
@@ -236,6 +243,8 @@ def prop_C05(run):
     import rules_op, rules_lim
     rules_op.tab_op(run)
     rules_op.tab_builtins(run)
+    rules_op.literal_rules(run)
+    rules_op.concat_rule(run)
     rules_lim.lim4(run)
     run.rules_run += ["TAB-op tokens <-> precedence levels <-> evaluator primitives <-> num-bigint operations, literal radix tables", "LIM4 checked primitives (caps, zero tests)"]
 
@@ -246,6 +255,7 @@ def prop_C04(run):
     rules_rng.min_size_shape(run)
     rules_rng.data_width(run)
     rules_rng.typenames(run)
+    rules_rng.size_writers(run)
     run.rules_run += ["RNG decision tables of the uN/sN/iN predicates over the atoms sign, min_size<=>N, N==0 (abstractly interpreted from MIR) against the statement's formula",
                       "RNG data directive predicate, no truncation before the test, constrained size, typename tables"]
 
@@ -273,12 +283,14 @@ def prop_C12(run):
     rules_mpt.build_output_rules(run)
     rules_unit.unit(run, layout=True)
     rules_unit.src_bind(run)
+    rules_unit.addrspan_positions(run)
     n = lim2_obligations(run, only=lambda key, f: "symbol_format" in key or "format_addrspan" in key)
     rules_mpt.symbol_listing(run)
     rules_mpt.mesen_header_rule(run)
     # the symbol listings take the children of a scope from a hash map: listed in declaration order only through the sort
     import rules_det
     rules_det.det1(run, fns=[f for f in run.prog.real_fns() if (f.raw.get("root") or f.id).startswith("util::symbol_format::")])
+    rules_det.lossy_apis(run)
     run.rules_run += ["MPT span = write; who may write bits; listings sort spans by offset; symbol listing skips no_emit and sorts by declaration index", "UNIT/SRC for excerpts", "LIM2 on the Mesen offset"]
 
 
@@ -290,13 +302,16 @@ def prop_C01(run):
     rules_idx.match_identity(run)
     rules_idx.lookahead_both(run)
     rules_mpt.alignment_rules(run)
+    rules_mpt.overlap_rules(run)
+    import rules_sym
+    rules_sym.lookup_rules(run)
     rules_mpt.pipeline(run)
     rules_mpt.build_output_rules(run)
     # R4: out-of-range arguments are rejected (tables of C04) and never bound unchecked
     rules_rng.range_tables(run)
     reach = reach_roots(run)
     rules_err.err5(run, reach)
-    run.rules_run += ["REJ no-match / tie / undefined symbol are errors on every path", "PIPE phases in order behind their success edges", "MPT emission sites", "RNG range predicates", "ERR5 no rejection swallowed"]
+    run.rules_run += ["REJ no-match / tie / undefined symbol are errors on every path", "OVL overlapping output is rejected (neighbour comparisons)", "SYM lookup scope: too many dots find nothing", "PIPE phases in order behind their success edges", "MPT emission sites", "RNG range predicates", "ERR5 no rejection swallowed"]
 
 
 def prop_C14(run):
@@ -359,6 +374,7 @@ def prop_C17(run):
     import rules_asm, rules_idx, rules_lim, rules_fix
     rules_asm.asm_block_rules(run)
     rules_asm.substitution_rules(run)
+    rules_asm.nested_arg_text(run)
     rules_asm.fn_rules(run)
     rules_asm.args_rules(run)
     rules_idx.static_known(run)
